@@ -25,12 +25,16 @@ KindsFull == << K("mf", "m/a.go", 1, "GoMod", TRUE),       \* package main insid
                 K("sf", "s/a.go", 1, "Stdlib", FALSE),
                 K("cf", "c/a.go", 1, "GoPkg", FALSE),
                 K("uf", "u/a.go", 1, "Unknown", FALSE),
-                K("df", "d/a.go", 1, "GoMod", FALSE),
                 [K("pf", "ws.go", 1, "GOPATH", FALSE) EXCEPT !.dirsrc = ""],   \* a file without any directory: empty dir/file
+                \* two more files of the same function whose base names (wl < ws < wu) order differently from
+                \* their dir/file names ("" < a/wu.go < b/wl.go): a comparison that mixes the two keys cycles
+                K("pf", "b/wl.go", 1, "GOPATH", FALSE),
+                K("pf", "a/wu.go", 1, "GOPATH", FALSE),
+                K("df", "d/a.go", 1, "GoMod", FALSE),
                 K("pg", "p/a.go", 1, "GOPATH", FALSE),      \* same class, other function
                 K("pf", "p/b.go", 1, "GOPATH", FALSE),      \* same class, other file
                 K("pf", "p/a.go", 2, "GOPATH", FALSE) >>    \* same class, other line
-Kinds == IF Full THEN KindsFull ELSE SubSeq(KindsFull, 1, 7)
+Kinds == IF Full THEN KindsFull ELSE SubSeq(KindsFull, 1, 8)
 
 Stacks == {<<>>} \cup {<<Kinds[i]>> : i \in 1..Len(Kinds)}
              \cup {<<Kinds[i], Kinds[j]>> : i, j \in 1..Len(Kinds)}
@@ -41,11 +45,8 @@ Special == {Mk(fr, lk, st) : fr \in {<<>>, <<Kinds[1]>>, <<Kinds[2]>>, <<Kinds[3
 SSet == Plain \cup Special
 S == SetToSeq(SSet)       \* some fixed enumeration
 
-MCTokRank == [t \in {"", "s1","s2","cf","df","mf","pf","pg","sf","uf",
-                     "c/a.go","d/a.go","m/a.go","p/a.go","p/b.go","s/a.go","u/a.go"} |->
-   CASE t = "" -> 0 [] t = "c/a.go" -> 1 [] t = "cf" -> 2 [] t = "d/a.go" -> 3 [] t = "df" -> 4 [] t = "m/a.go" -> 5 [] t = "mf" -> 17
-     [] t = "p/a.go" -> 7 [] t = "p/b.go" -> 8 [] t = "pf" -> 9 [] t = "pg" -> 10 [] t = "s/a.go" -> 11 [] t = "s1" -> 12
-     [] t = "s2" -> 13 [] t = "sf" -> 14 [] t = "u/a.go" -> 15 [] t = "uf" -> 16]
+MCTokRank == [t \in {"", "a/wu.go", "b/wl.go", "c/a.go", "d/a.go", "m/a.go", "p/a.go", "p/b.go", "s/a.go", "u/a.go", "cf", "df", "pf", "pg", "sf", "uf", "mf", "s1", "s2"} |->
+   CASE t = "" -> 0 [] t = "a/wu.go" -> 1 [] t = "b/wl.go" -> 2 [] t = "c/a.go" -> 3 [] t = "d/a.go" -> 4 [] t = "m/a.go" -> 5 [] t = "p/a.go" -> 6 [] t = "p/b.go" -> 7 [] t = "s/a.go" -> 8 [] t = "u/a.go" -> 9 [] t = "cf" -> 20 [] t = "df" -> 21 [] t = "pf" -> 22 [] t = "pg" -> 23 [] t = "sf" -> 24 [] t = "uf" -> 25 [] t = "mf" -> 26 [] t = "s1" -> 30 [] t = "s2" -> 31]
 
 VARIABLES a, b, c
 vars == <<a, b, c>>
